@@ -8,7 +8,7 @@ import time as _time
 class VClock:
     """Stands in for the `time` module inside asyncfix.connection (only .time() is virtual)."""
 
-    def __init__(self, start=1_700_000_000.0):
+    def __init__(self, start=1_000_000.0):
         self.now = float(start)
 
     def time(self):
@@ -25,7 +25,7 @@ class VDateTime:
         self._clock = clock
 
     def utcnow(self):
-        return _dt.datetime(2024, 1, 1) + _dt.timedelta(seconds=self._clock.now - 1_700_000_000.0)
+        return _dt.datetime(2024, 1, 1) + _dt.timedelta(seconds=self._clock.now - 1_000_000.0)
 
     def __getattr__(self, n):
         return getattr(_dt.datetime, n)
@@ -36,8 +36,11 @@ class Deadlock(Exception):
 
 
 class VSelector(selectors.BaseSelector):
+    HORIZON = 5_000_000.0   # virtual seconds; beyond this the main coroutine is parked for good
+
     def __init__(self, clock):
         self.clock = clock
+        self.t0 = clock.now
         self._map = {}
 
     def register(self, fileobj, events, data=None):
@@ -53,7 +56,13 @@ class VSelector(selectors.BaseSelector):
         if timeout is None:
             raise Deadlock("nothing scheduled and nothing runnable")
         if timeout > 0:
+            before = self.clock.now
             self.clock.now += timeout
+            if self.clock.now == before:     # timeout below one ulp of the clock: force progress
+                import math
+                self.clock.now = math.nextafter(before, math.inf)
+            if self.clock.now - self.t0 > self.HORIZON:
+                raise Deadlock("virtual-time horizon passed: the driving coroutine waits for something that never happens")
         return []
 
     def get_map(self):
@@ -67,6 +76,7 @@ class VLoop(asyncio.SelectorEventLoop):
     def __init__(self, clock):
         self.clock = clock
         super().__init__(VSelector(clock))
+        self._clock_resolution = 1e-6   # timers within a microsecond of "now" are due (float residue of the virtual clock)
 
     def time(self):
         return self.clock.now
@@ -95,8 +105,14 @@ def run(coro_fn, clock=None):
     undo = install(clock)
     loop = VLoop(clock)
     asyncio.set_event_loop(loop)
+    main = loop.create_task(coro_fn(clock))
     try:
-        return loop.run_until_complete(coro_fn(clock))
+        return loop.run_until_complete(main)
+    except Deadlock as e:
+        import io
+        buf = io.StringIO()
+        main.print_stack(file=buf)
+        raise Deadlock(str(e) + " :: " + buf.getvalue()[-1500:]) from None
     finally:
         try:
             pending = [t for t in asyncio.all_tasks(loop) if not t.done()]
